@@ -1,5 +1,7 @@
 import QuinnModel.Drv.Wire
 import QuinnModel.Drv.Conn
+import QuinnModel.Drv.Sbuf
+import QuinnModel.Drv.Asm
 /-
 Native model driver: one request per line on stdin, one canonical response line on stdout.
 `case <id>` resets every component state (and is echoed).
@@ -8,6 +10,8 @@ open QM
 
 structure St where
   dedup : Dedup.Dedup := Dedup.init
+  sbuf : SendBuffer.SendBuffer := {}
+  asm : Assembler.Asm := {}
 
 def step (s : St) (line : String) : St × String :=
   match words line with
@@ -16,7 +20,10 @@ def step (s : St) (line : String) : St × String :=
   | "pn" :: r => (s, Drv.pn r)
   | "amp" :: r => (s, Drv.amp r)
   | "life" :: r => (s, Drv.life r)
+  | "timers" :: r => (s, Drv.timers r)
   | "dedup" :: r => let (d, o) := Drv.dedup s.dedup r; ({ s with dedup := d }, o)
+  | "sbuf" :: r => let (d, o) := Drv.sbuf s.sbuf r; ({ s with sbuf := d }, o)
+  | "asm" :: r => let (d, o) := Drv.asm s.asm r; ({ s with asm := d }, o)
   | _ => (s, "bad-op")
 
 partial def loop (h : IO.FS.Stream) (out : IO.FS.Stream) (s : St) : IO Unit := do
